@@ -206,6 +206,7 @@ Inductive cs_dec :=
 Section Charset.
   Variable T : Type.                              (* a text chunk *)
   Variable encodable : list Z -> T -> bool.       (* chunk.encode(name, 'strict') succeeds *)
+  Variable usable : list Z -> bool.               (* ''.encode(name, 'strict') succeeds: the codec exists *)
 
   Inductive chunk := CText (t : T) | CBytes.
 
@@ -232,9 +233,10 @@ Section Charset.
       | Some rest => (false, Est (cs :: attempted s) (if oneshot then rest else body s))
       end.
 
-  (** encode_stream: wraps the body, never looks at it *)
+  (** encode_stream: checks that the codec exists (''.encode(name)), then wraps
+      the body without looking at it *)
   Definition try_stream (cs : list Z) (s : est) : bool * est :=
-    if mem cs (attempted s) then (false, s) else (true, Est (cs :: attempted s) (body s)).
+    if mem cs (attempted s) then (false, s) else (usable cs, Est (cs :: attempted s) (body s)).
 
   Definition q_pos (name : list Z) (encs : list elem) : bool :=
     existsb (fun e => eqbZs (lower (e_val e)) name && (0 <? e_q e)) encs.
@@ -382,10 +384,16 @@ Definition run_gzip (x : sx) : sx :=
   else
     L [ enc_gz_dec d; I (gz_status d); enc_strs vary'; L []; L []; I 0; enc_strs (map e_str sorted) ].
 
-(** encodability table: ((name (bool per chunk index)) ...) *)
+(** encodability table: ((name (bool per chunk index) usable) ...) *)
 Definition table_lookup (tab : list (list Z * list Z)) (name : list Z) (i : Z) : bool :=
   match find (fun p => eqbZs (fst p) name) tab with
   | Some (_, bits) => match nthZ i bits with Some b => negb (b =? 0) | None => false end
+  | None => false
+  end.
+
+Definition usable_lookup (tab : list (list Z * Z)) (name : list Z) : bool :=
+  match find (fun p => eqbZs (fst p) name) tab with
+  | Some (_, u) => negb (u =? 0)
   | None => false
   end.
 
@@ -410,9 +418,10 @@ Definition run_charset (x : sx) : sx :=
   let ct := dec_optstr (nth_sx 11 x) in
   let tab := map (fun e => (sx_Zs (nth_sx 0 e), sx_Zs (nth_sx 1 e))) (sx_list (nth_sx 12 x)) in
   let enc := table_lookup tab in
+  let usb := usable_lookup (map (fun e => (sx_Zs (nth_sx 0 e), sx_Z (nth_sx 2 e))) (sx_list (nth_sx 12 x))) in
   let b := index_chunks kinds 0 in
   let sorted := match ac with None => [] | Some els => header_order els end in
-  let d := encode_tool Z enc c oneshot ct ac b in
+  let d := encode_tool Z enc usb c oneshot ct ac b in
   match d with
   | CNoFind => L [I 0; L []; I 0; L []; enc_strs (map e_str sorted)]
   | CChosen cs dropped =>
